@@ -149,6 +149,17 @@ def check(ctx):
         q = f64bits(x)
         for p in range(0, 11):
             script.append("Dpr %d %d %d dprint_double" % (q >> 32, q & 0xffffffff, p)); nrender += 1
+    # doubles around the boundaries of the integer types (2^k, k = 24..70; 10^k, k = 6..22; +-1 ulp and a point in between) with the
+    # precisions 0, 1 and automatic, both signs: magnitudes where a conversion through a fixed-width integer stops being possible
+    script.append("R")
+    import math
+    mags = []
+    for k in range(24, 71): mags += [2.0 ** k, math.nextafter(2.0 ** k, 0.0), math.nextafter(2.0 ** k, math.inf), 1.37 * 2.0 ** k]
+    for k in range(6, 23): mags += [10.0 ** k, math.nextafter(10.0 ** k, 0.0), 0.93 * 10.0 ** k]
+    for j, m_ in enumerate(mags):
+        for p in (0, 1, -1) if (ctx.thorough or j % 2 == 0) else (0,):
+            q = f64bits(m_ if j % 3 else -m_)
+            script.append("F64 %d %d %d %s" % (q >> 32, q & 0xffffffff, p, "f64toa" if j % 5 else "ftoa")); nrender += 1
     script.append("R")
     for x in (1e300, -1e300, 1e39, 5e-324, 2.0 ** 31, 2.0 ** 31 - 0.5, 2147483647.999, float("inf"), float("-inf"), float("nan")):
         q = f64bits(x)
